@@ -285,7 +285,7 @@ func keyHash(k string) string {
 }
 
 func (c *Ctx) writeReplay(rp Replay) {
-	dir := filepath.Join(verifDir(), "replays")
+	dir := filepath.Join(outDir(), "replays")
 	os.MkdirAll(dir, 0755)
 	path := filepath.Join(dir, fmt.Sprintf("%s-%s-%d.json", c.ID, keyHash(rp.Key), rp.Seed))
 	b, _ := json.MarshalIndent(rp, "", " ")
@@ -339,7 +339,7 @@ func (c *Ctx) Finish() {
 		"coverage": cov, "assumptions": c.Assume, "wall_s": wall, "violations": len(c.Violations),
 	}
 	b, _ := json.MarshalIndent(ev, "", " ")
-	dir := filepath.Join(verifDir(), "evidence")
+	dir := filepath.Join(outDir(), "evidence")
 	os.MkdirAll(dir, 0755)
 	if err := os.WriteFile(filepath.Join(dir, c.ID+".json"), b, 0644); err != nil {
 		harnessFail("cannot write evidence: %v", err)
